@@ -38,8 +38,43 @@ let kinds = [ "i8", KInt8; "i16", KInt16; "i32", KInt32; "i64", KInt64; "u8", KU
               "u32", KUInt32; "u64", KUInt64; "ch", KChar; "sz", KSize; "by", KByte; "fl", KFloat;
               "db", KDouble; "bo", KBoolean; "po", KPosition ]
 let kind_name k = fst (List.find (fun (_, k') -> k' = k) kinds)
+let id_opt (t : string) : n option = if t = "n" then None else Some (n_of_int (int_of_string t))
+let num (t : string) : n = n_of_int (int_of_string t)
+(* token: <vid>:<kind>[:args]   (see the header comment of harness/C10.cpp) *)
+let parse_tok (w : string) : n option tok option =
+  match String.split_on_char ':' w with
+  | vid :: rest ->
+    let b = (match rest with
+        | ["n"] -> Some TNone
+        | ["s"; h] -> Some (TStr (bytes_of_hex h))
+        | ["i"; v] -> Some (TPrim (VInt, n_of_hex v))
+        | ["f"; v] -> Some (TPrim (VFloat, n_of_hex v))
+        | ["c"; v] -> Some (TPrim (VChar, n_of_hex v))
+        | ["k"; "~"] -> Some (TCStr None)
+        | ["k"; h] -> Some (TCStr (Some (bytes_of_hex h)))
+        | ["L"; t] -> Some (TPtr (VListener, id_opt t))
+        | ["R"; t] -> Some (TPtr (VRef, id_opt t))
+        | ["C"; t] -> Some (TPtr (VContainer, id_opt t))
+        | ["S"; t] -> Some (TPtr (VSafeContainer, id_opt t))
+        | "A" :: hid :: rc :: tl :: thr :: tli :: count :: _ ->
+          Some (TArrayNew (num hid, num rc, num tl, num thr, num tli, num count))
+        | ["K"; hid; rc; size] -> Some (TConstArrayNew (num hid, num rc, num size))
+        | ["P"; pid; ts] ->
+          Some (TPointerNew (num pid, if ts = "-" then [] else List.map id_opt (String.split_on_char '/' ts)))
+        | ["h"; k; hid] ->
+          Some (THolderRef ((match k with "A" -> HArray | "K" -> HConstArray | _ -> HPointer), id_opt hid))
+        | ["v"; h] -> Some (TVector (bytes_of_hex h))
+        | _ -> None) in
+    (match b with Some b -> (try Some { t_vid = num vid; t_body = b } with _ -> None) | None -> None)
+  | [] -> None
+let parse_key (k : string) : n list option option =
+  if k = "*" then None else if k = "~" then Some None else Some (Some (bytes_of_hex k))
 let parse_leaf (ws : string list) : leaf option =
   match ws with
+  | "V" :: key :: toks ->
+    let ts = List.map parse_tok toks in
+    if List.mem None ts then None
+    else Some (LVar (parse_key key, List.map (function Some t -> t | None -> assert false) ts))
   | ["P"; k; v] -> (match List.assoc_opt k kinds with Some k -> Some (LPrim (k, n_of_hex v)) | None -> None)
   | ["R"; h] -> Some (LRaw (bytes_of_hex h))
   | ["S"; h] -> Some (LStr (bytes_of_hex h))
@@ -54,7 +89,7 @@ let rec split_on (sep : string) (ws : string list) : string list list =
   go [] [] ws
 let parse_item_words (ws : string list) : item option =
   match ws with
-  | "B" :: c :: id :: "[" :: rest ->
+  | ("B" | "N") :: c :: id :: "[" :: rest ->      (* N: loaded with ReadObject<T>() - the same record, the same model *)
     let rest = List.filter (fun w -> w <> "]") rest in
     let groups = List.filter (fun g -> g <> []) (split_on ";" rest) in
     let ls = List.map parse_leaf groups in
@@ -63,8 +98,82 @@ let parse_item_words (ws : string list) : item option =
                      List.map (function Some l -> l | None -> assert false) ls))
   | _ -> (match parse_leaf ws with Some l -> Some (ILeaf l) | None -> None)
 let parse_item (l : string) : item option = parse_item_words (words l)
+(* ---- canonical text of a script variable: entries of an array sorted by key text, nested
+   variable identities masked, holders numbered by first visit (state per printed outcome) *)
+type node = { nvid : int; nbody : n option tbody; nkids : node list }
+let rec build (ts : n option tok list) : node * n option tok list =
+  match ts with
+  | [] -> ({ nvid = 0; nbody = TNone; nkids = [] }, [])
+  | t :: r ->
+    let k = int_of_n (kids t.t_body) in
+    let rec take i r acc = if i = 0 then (List.rev acc, r) else
+        (match r with [] -> (List.rev acc, []) | _ -> let (c, r') = build r in take (i - 1) r' (c :: acc)) in
+    let (cs, r') = take k r [] in
+    ({ nvid = int_of_n t.t_vid; nbody = t.t_body; nkids = cs }, r')
+let holders : (int, node) Hashtbl.t = Hashtbl.create 16
+let labels : (int, int) Hashtbl.t = Hashtbl.create 16
+let rec collect (nd : node) : unit =
+  (match nd.nbody with
+   | TArrayNew (hid, _, _, _, _, _) | TConstArrayNew (hid, _, _) | TPointerNew (hid, _) ->
+     if not (Hashtbl.mem holders (int_of_n hid)) then Hashtbl.replace holders (int_of_n hid) nd
+   | _ -> ());
+  List.iter collect nd.nkids
+let tgt_str (t : n option) : string = match t with None -> "n" | Some x -> string_of_int (int_of_n x)
+let scalar_str (b : n option tbody) : string =
+  match b with
+  | TNone -> "n"
+  | TStr bs -> "s:" ^ hex_of_bytes bs
+  | TPrim (VInt, v) -> "i:" ^ hex_of_n v
+  | TPrim (VFloat, v) -> "f:" ^ hex_of_n v
+  | TPrim (VChar, v) -> "c:" ^ hex_of_n v
+  | TCStr None -> "k:~"
+  | TCStr (Some bs) -> "k:" ^ hex_of_bytes bs
+  | TPtr (VListener, t) -> "L:" ^ tgt_str t
+  | TPtr (VRef, t) -> "R:" ^ tgt_str t
+  | TPtr (VContainer, t) -> "C:" ^ tgt_str t
+  | TPtr (VSafeContainer, t) -> "S:" ^ tgt_str t
+  | TVector bs -> "v:" ^ hex_of_bytes bs
+  | _ -> "?"
+let rec pairs (l : node list) : (node * node) list =
+  match l with k :: v :: r -> (k, v) :: pairs r | _ -> []
+let rec value_str (nd : node) : string =
+  match nd.nbody with
+  | TArrayNew (hid, _, _, _, _, _) -> holder_str 'A' (int_of_n hid)
+  | TConstArrayNew (hid, _, _) -> holder_str 'K' (int_of_n hid)
+  | TPointerNew (hid, _) -> holder_str 'P' (int_of_n hid)
+  | THolderRef (k, Some hid) -> holder_str (match k with HArray -> 'A' | HConstArray -> 'K' | HPointer -> 'P') (int_of_n hid)
+  | THolderRef (_, None) -> "h:n"
+  | b -> scalar_str b
+and holder_str (k : char) (hid : int) : string =
+  match Hashtbl.find_opt labels hid with
+  | Some l -> Printf.sprintf "%c#%d" k l
+  | None ->
+    let l = Hashtbl.length labels + 1 in
+    Hashtbl.replace labels hid l;
+    (match Hashtbl.find_opt holders hid with
+     | None -> Printf.sprintf "%c#%d?" k l
+     | Some nd ->
+       (match nd.nbody with
+        | TArrayNew (_, rc, _, _, _, _) ->
+          let ps = List.sort (fun (a, _) (b, _) -> compare (scalar_str a.nbody) (scalar_str b.nbody)) (pairs nd.nkids) in
+          Printf.sprintf "A#%d/%d{%s}" l (int_of_n rc)
+            (String.concat "," (List.map (fun (a, b) -> let ks = scalar_str a.nbody in ks ^ "=>" ^ value_str b) ps))
+        | TConstArrayNew (_, rc, _) ->
+          Printf.sprintf "K#%d/%d[%s]" l (int_of_n rc) (String.concat "," (List.map value_str nd.nkids))
+        | TPointerNew (_, ts) -> Printf.sprintf "P#%d(%s)" l (String.concat "," (List.map tgt_str ts))
+        | _ -> "?"))
+let key_str (k : n list option option) : string =
+  match k with None -> "*" | Some None -> "~" | Some (Some bs) -> hex_of_bytes bs
+let var_str (key : n list option option) (ts : n option tok list) : string =
+  let (nd, _) = build ts in
+  Printf.sprintf "V %s %d=%s" (key_str key) nd.nvid (value_str nd)
+let reset_canon (its : item list) : unit =
+  Hashtbl.reset holders; Hashtbl.reset labels;
+  let leaf = function LVar (_, ts) -> collect (fst (build ts)) | _ -> () in
+  List.iter (function ILeaf l -> leaf l | IObj (_, _, body) -> List.iter leaf body) its
 let leaf_str (l : leaf) : string =
   match l with
+  | LVar (key, ts) -> var_str key ts
   | LPrim (k, v) -> Printf.sprintf "P %s %s" (kind_name k) (hex_of_n v)
   | LRaw bs -> "R " ^ hex_of_bytes bs
   | LStr bs -> "S " ^ hex_of_bytes bs
